@@ -302,6 +302,10 @@ def c_axil_down(dw_from, dw_to):
     h.assume(z3.Implies(b(h.v(s.r.valid)), b(rout)), "AXI-Lite slave sends R only for an accepted, unanswered AR (single outstanding)")
     h.assume(z3.Implies(b(rout), z3.Not(b(h.v(s.ar.ready)))) if False else z3.BoolVal(True))
     h.ensure("ens.rd.ar", z3.Implies(b(h.v(s.ar.valid)), z3.And(b(h.v(m.ar.valid)), z3.Not(b(rout)), h.v(s.ar.addr) == h.v(m.ar.addr) + zx(rk, 16) * K(NB, 16))))
+    NBM = dw_from // 8
+    h.finding("finding.unaligned.rd", z3.Implies(b(h.v(s.ar.valid)), z3.ULT(h.v(s.ar.addr) - (h.v(m.ar.addr) & K(0x10000 - NBM, 16)), K(NBM, 16))),
+              "AXILiteDownConverter adds the sub-word offset to the master address without aligning it: for a master address that is not a multiple of the wide word (e.g. 0x..4 on a 64->32 or 32->16 converter) "
+              "the upper sub-words are read from / written to the NEXT wide word instead of the word that contains the address")
     lanes = [z3.Extract(dw_to * (j + 1) - 1, dw_to * j, h.v(m.r.data)) == rd[j] for j in range(ratio - 1)] + [z3.Extract(dw_from - 1, dw_to * (ratio - 1), h.v(m.r.data)) == h.v(s.r.data)]
     h.ensure("ens.rd.r", z3.Implies(b(h.v(m.r.valid)), z3.And(lastk, b(h.v(s.r.valid)), *lanes)))                  # all sub-words, in lane order
     h.ensure("ens.rd.resp", z3.Implies(b(h.v(m.r.valid)), h.v(m.r.resp) == rerr))   # first error of THIS request, else OKAY
